@@ -219,7 +219,7 @@ def rule_stale_all(repo, rid, modules):
                      'or by rebinding) unless it is a live view of that value or is recomputed inside the loop', floor=1)
     n = 0
     for m in modules:
-        for f in repo.module(m).functions.values():
+        for f in repo.functions_view(m):
             for loop in [x for x in ast.walk(f.node) if isinstance(x, (ast.For, ast.While))]:
                 n += 1
                 hits = stale_reads(f.node, loop) + conditional_stale(f.node, loop)
@@ -310,7 +310,7 @@ def rule_firstrep(repo, rid, modules):
                      'that collection: the elements of a heterogeneous collection (outputs, parameters, residual blocks of different sizes) have their own extents', floor=1)
     n = 0
     for m in modules:
-        for f in repo.module(m).functions.values():
+        for f in repo.functions_view(m):
             n += 1
             for st, name, coll, use in first_representatives(f.node):
                 res.inst({'function': f.fq, 'name': name, 'collection': coll}, (f.fq, name))
